@@ -1,3 +1,127 @@
-(* C15 placeholder while the correspondence is brought up *)
-From Coq Require Import ZArith.
-From DRF Require Import Model.Events.
+(* C15 -- Live event filter agrees with listing; finalizing rename is a creation.
+   Property theorems only; each is closed by `exact` of a lemma and followed by Print Assumptions.
+
+   Model: Model/Events.v (regex selection from the include flags, `dispatch`), over the path
+   patterns e_re_* that translate/re2gallina.py regenerates from the imported package on every run
+   (Gen/Grammar.v), matched by the backtracking matcher of Base/Regex.v (proved sound and complete
+   w.r.t. its declarative semantics in Base/RegexSound.v).  `listable f st en p` (Model/PathSpec.v)
+   is the component-wise Spec "a listing with flags f and window [st, en] lists a finalized file at
+   p inside a channel directory of some kind, forward-fill file aside" over the listing's own
+   regenerated patterns l_re_*; Properties/C14.v ties it to the listing model.
+
+   The property is bounded ("exhaustive over that bounded grammar"): the *_bounded theorems are a
+   COMPLETE enumeration inside Coq (vm_compute of a forallb, lifted by forallb_forall) of
+   Model/EventsUniverse.v: 783 paths (3 channel paths x 9 subdirectory variants x 29 file
+   variants) x 5 move destinations x 36 flag combinations x 49 windows (times at and 1 ms around
+   the file times).  The other theorems hold for ALL paths / names. *)
+From Coq Require Import ZArith List Bool.
+From DRF Require Import Base.Regex Base.WordLit Gen.Grammar Model.PathSpec Model.Events Model.EventsUniverse
+  Proofs.GrammarProofs Proofs.PathSpecProofs Proofs.EventsProofs.
+Import ListNotations.
+Local Open Scope Z_scope.
+
+(* created / modified / deleted of a path of the universe inside the claim (lower-case fixed parts,
+   possible date): the constructor raises iff nothing is included; otherwise the event is delivered
+   unchanged exactly when the path is listable with the same flags and window, else dropped *)
+Theorem C15_accept_iff_listed_bounded : forall p f w k,
+  In (p, true) u_paths -> In f u_flags -> In w u_windows ->
+  dispatch f (fst w) (snd w) (file_event k p) =
+    if nothing_included f then None
+    else Some (if listable f (fst w) (snd w) p then Deliver k p [] else Dropped).
+Proof. exact accept_iff_listed_bounded. Qed.
+Print Assumptions C15_accept_iff_listed_bounded.
+
+(* a move between two paths of the universe: deletion of the source when only the source is
+   listable, creation of the destination when only the destination is, each judged on its own
+   time; dropped when neither (expected_moved, Proofs/EventsProofs.v) *)
+Theorem C15_moved_bounded : forall p q c f w,
+  In (p, true) u_paths -> In (q, c) (u_moves p) -> In f u_flags -> In w u_windows ->
+  dispatch f (fst w) (snd w) (moved p q) =
+    if nothing_included f then None
+    else Some (render (moved p q) (expected_moved f (fst w) (snd w) (linfo_of p) (linfo_of q))).
+Proof. exact moved_bounded. Qed.
+Print Assumptions C15_moved_bounded.
+
+(* never a directory: for every event, pattern list and window *)
+Theorem C15_never_directory : forall rs st en mt ev,
+  ev_dir ev = true -> dispatch_rs rs st en mt ev = Dropped.
+Proof. exact dir_event_dropped. Qed.
+Print Assumptions C15_never_directory.
+
+(* never a tmp. file (universe) *)
+Theorem C15_never_tmp_bounded : forall d base f w k,
+  In (d ++ sep :: base, true) u_paths -> ~ In sep base -> starts_with (W "tmp.") base = true ->
+  In f u_flags -> In w u_windows -> nothing_included f = false ->
+  dispatch f (fst w) (snd w) (file_event k (d ++ sep :: base)) = Some Dropped.
+Proof. exact never_tmp_bounded. Qed.
+Print Assumptions C15_never_tmp_bounded.
+
+(* ... and the listing side of the agreement for ALL directories and names: a name starting with
+   tmp. is never listable, and never matches any of the listing's file patterns *)
+Theorem C15_listable_never_tmp : forall f st en d base,
+  ~ In sep base -> starts_with (W "tmp.") base = true -> listable f st en (d ++ sep :: base) = false.
+Proof. exact listable_never_tmp. Qed.
+Print Assumptions C15_listable_never_tmp.
+
+Theorem C15_data_file_never_tmp : forall r s,
+  r = l_re_drffile \/ r = l_re_dmdfile \/ r = l_re_file ->
+  starts_with (W "tmp.") s = true -> rmatch false r s = None.
+Proof. exact data_file_never_tmp. Qed.
+Print Assumptions C15_data_file_never_tmp.
+
+(* the writer's finalizing rename d/tmp.b -> d/b is the creation of d/b (universe) *)
+Theorem C15_finalize_is_creation_bounded : forall d b f w,
+  In (d ++ sep :: W "tmp." ++ b, true) u_paths -> ~ In sep b ->
+  In f u_flags -> In w u_windows -> nothing_included f = false ->
+  dispatch f (fst w) (snd w) (moved (d ++ sep :: W "tmp." ++ b) (d ++ sep :: b)) =
+    Some (if listable f (fst w) (snd w) (d ++ sep :: b) then Deliver Created (d ++ sep :: b) [] else Dropped).
+Proof. exact finalize_is_creation_bounded. Qed.
+Print Assumptions C15_finalize_is_creation_bounded.
+
+(* ... and for ALL paths, given only how the two names classify: source matched by no selected
+   pattern, destination matched -> FileCreatedEvent(destination), judged on the destination's time *)
+Theorem C15_finalize_is_creation : forall rs st en p q ti,
+  q <> [] -> classify rs p = None -> classify rs q = Some ti -> ti <> BadInt ->
+  dispatch_rs rs st en true (moved p q) = if window_ok st en ti then Deliver Created q [] else Dropped.
+Proof. exact finalize_is_creation_core. Qed.
+Print Assumptions C15_finalize_is_creation.
+
+(* a rename of a tracked file to a name no pattern matches is its deletion, for ALL paths *)
+Theorem C15_rename_away_is_deletion : forall rs st en p q ti,
+  q <> [] -> classify rs p = Some ti -> classify rs q = None -> ti <> BadInt ->
+  dispatch_rs rs st en true (moved p q) = if window_ok st en ti then Deliver Deleted p [] else Dropped.
+Proof. exact rename_away_is_deletion_core. Qed.
+Print Assumptions C15_rename_away_is_deletion.
+
+(* the window is inclusive on the captured name time and is the only thing besides the patterns
+   that decides, for ALL paths; no captured time (properties files) -> no window check *)
+Theorem C15_window_inclusive : forall rs st en k p,
+  dispatch_rs rs st en true (file_event k p) =
+  match classify rs p with
+  | None => Dropped
+  | Some BadInt => Raises
+  | Some ti => if window_ok st en ti then Deliver k p [] else Dropped
+  end.
+Proof. exact single_event. Qed.
+Print Assumptions C15_window_inclusive.
+
+(* the constructor raises ValueError exactly when no kind is included *)
+Theorem C15_valueerror_iff_nothing_included : forall f,
+  select_regexes f = [] <-> (inc_drf f || inc_dmd f || eff_drfp f || eff_dmdp f) = false.
+Proof. exact select_empty_iff. Qed.
+Print Assumptions C15_valueerror_iff_nothing_included.
+
+(* int() never sees a non-number, also outside the claim (universe) *)
+Theorem C15_never_raises_bounded : forall p claim f w k,
+  In (p, claim) u_paths -> In f u_flags -> In w u_windows ->
+  dispatch f (fst w) (snd w) (file_event k p) <> Some Raises.
+Proof. exact never_raises_bounded. Qed.
+Print Assumptions C15_never_raises_bounded.
+
+(* documented behaviour the statement does not cover: when BOTH names match, the event stays a move
+   and only the destination's time is compared with the window *)
+Theorem C15_moved_both_match_uses_dest_time : forall rs st en p q tp tq,
+  q <> [] -> classify rs p = Some tp -> classify rs q = Some tq -> tq <> BadInt ->
+  dispatch_rs rs st en true (moved p q) = if window_ok st en tq then Deliver Moved p q else Dropped.
+Proof. exact moved_both_match_uses_dest_time. Qed.
+Print Assumptions C15_moved_both_match_uses_dest_time.
